@@ -192,3 +192,47 @@ func smInv(stack []stateEntry, last stateEntry) bool {
 //@ ensures colon: (delim == ':') == (seObj(m.Last) && seCount(m.Last)%2 == 1)
 //@ ensures comma: (delim == ',') == (!(seObj(m.Last) && seCount(m.Last)%2 == 1) && seCount(m.Last) > 0 && next != '}' && next != ']' && len(m.Stack) != 0)
 //@ ensures values: delim == ':' || delim == ',' || delim == 0
+
+// ---------------------------------------------------------------- objectNameStack
+//
+// Representation: offsets[i] >= 0 is the end of the i-th name inside
+// unquotedNames (local names are stored back to back, so local offsets are
+// non-decreasing and precede all remote ones); a negative offset is either
+// invalidOffset (only as the last entry: the innermost object has no name yet)
+// or ^start of a quoted name in the coder's buffer.
+
+//@ spec nsLocalOK
+func nsLocalOK(offsets []int, names []byte) bool {
+	return vForall(0, len(offsets), func(i int) bool {
+		return offsets[i] < 0 || (offsets[i] <= len(names) && vForall(0, i, func(j int) bool { return 0 <= offsets[j] && offsets[j] <= offsets[i] }))
+	})
+}
+
+// nsRemoteOK: every remote offset points inside b.
+//
+//@ spec nsRemoteOK
+func nsRemoteOK(offsets []int, n int) bool {
+	return vForall(0, len(offsets), func(i int) bool {
+		return offsets[i] >= 0 || (i == len(offsets)-1 && offsets[i] == invalidOffset) || (0 <= ^offsets[i] && ^offsets[i] < n)
+	})
+}
+
+//@ func (*objectNameStack).copyQuotedBuffer
+//@ property C05 C07 C16 C20
+//@ requires ns != nil && nsLocalOK(ns.offsets, ns.unquotedNames) && nsRemoteOK(ns.offsets, len(b))
+//@ requires distinctArrays(ns.unquotedNames, b)
+//@ modifies ns.unquotedNames, ns.unquotedNames[:cap(ns.unquotedNames)], ns.offsets[:], b[:]
+//@ ensures local: nsLocalOK(ns.offsets, ns.unquotedNames)
+//@ ensures no-remote: vForall(0, len(ns.offsets), func(i int) bool { return ns.offsets[i] >= 0 })
+//@ ensures depth: len(ns.offsets) == old(len(ns.offsets))
+//@ ensures alias: sameOrFresh(ns.unquotedNames, old(ns.unquotedNames))
+//@ ensures buffer: vForall(0, len(b), func(j int) bool { return b[j] == old(b[j]) || (old(b[j]) == invalidateBufferByte && b[j] == '"') })
+//@ loop 0 invariant -1 <= i && i < len(ns.offsets) && vForall(i+1, len(ns.offsets), func(k int) bool { return ns.offsets[k] < 0 })
+//@ loop 0 decreases i + 1
+//@ loop 1 invariant range: 0 <= i && i <= len(ns.offsets) && len(ns.offsets) == old(len(ns.offsets))
+//@ loop 1 invariant done: vForall(0, i, func(k int) bool { return ns.offsets[k] >= 0 && ns.offsets[k] <= len(ns.unquotedNames) && vForall(0, k, func(j int) bool { return ns.offsets[j] <= ns.offsets[k] }) })
+//@ loop 1 invariant todo: vForall(i, len(ns.offsets), func(k int) bool { return ns.offsets[k] < 0 && ns.offsets[k] == old(ns.offsets[k]) })
+//@ loop 1 invariant buffer: vForall(0, len(b), func(j int) bool { return b[j] == old(b[j]) || (old(b[j]) == invalidateBufferByte && b[j] == '"') })
+//@ loop 1 invariant distinct: distinctArrays(ns.unquotedNames, b)
+//@ loop 1 invariant alias: sameOrFresh(ns.unquotedNames, old(ns.unquotedNames))
+//@ loop 1 decreases len(ns.offsets) - i
